@@ -84,6 +84,24 @@ def newClient (s : Sess) (id : Nat) (k : ClientKind) (tfmt : Option (Format × N
       tfmt := tfmt }
   { s with clients := c :: s.clients }
 
+/-- SetEncodings sent again by client `id`: all cursor flags are reset, then set from the list
+([Raw] / [Raw, XCursor, PointerPos] / [Raw, RichCursor, PointerPos]).  Enabling a cursor encoding
+marks the box of the (possibly painted) soft cursor for redraw and makes shape and position due;
+taking cursor-shape support away marks the box where the soft cursor must now appear (repaired
+code only: `Variant.setencFixed`). -/
+def setEncodings (v : Variant) (s : Sess) (id : Nat) (k : ClientKind) : Sess :=
+  let W := s.scr.w
+  let H := s.scr.h
+  let shape := k != .raw
+  { s with clients := s.clients.map fun c =>
+      if c.id == id then
+        let mark := shape || (v.setencFixed && c.shape)
+        { c with shape := shape, useRich := k == .rich, posUpd := shape,
+                 wasChanged := shape, wasMoved := shape || c.wasMoved,
+                 modified := if mark then Rgn.or W H c.modified (Rgn.ofRect W H (cursorBox s.scr c.curX c.curY))
+                             else c.modified }
+      else c }
+
 /-- PointerEvent from client `id` (deferPtrUpdateTime = 0, not view-only) -/
 def ptrEvent (s : Sess) (id x y buttons : Nat) : Sess :=
   match s.pointerClient with
@@ -262,6 +280,7 @@ screen, ill-formed cursor) are ignored, as the harness answers `bad-op` -/
 inductive Op where
   | client (id : Nat) (k : ClientKind) (tfmt : Option (Format × Nat))
   | ptr (id x y buttons : Nat)
+  | setenc (id : Nat) (k : ClientKind)
   | req (id : Nat) (incr : Bool) (r : Rect)
   | draw (r : Rect) (val : Nat → Nat → Px)
   | cursor (c : Option Cursor)
@@ -273,6 +292,7 @@ def Rect.inside (r : Rect) (W H : Nat) : Bool :=
 
 def applyOp (v : Variant) (s : Sess) : Op → Option Sess
   | .client id k t => if s.clients.any (fun c => c.id == id) then some s else some (newClient s id k t)
+  | .setenc id k => some (setEncodings v s id k)
   | .ptr id x y b => if s.clients.any (fun c => c.id == id) then some (ptrEvent s id x y b) else some s
   | .req id incr r => if r.inside s.scr.w s.scr.h then some (request s id incr r) else some s
   | .draw r val => if r.inside s.scr.w s.scr.h then draw s r val else some s
